@@ -449,6 +449,21 @@ theorem getTip_ne_panic (all : List (Chunk H)) : getTip all ≠ .panic := by
   · simp
   · split <;> simp
 
+/-! ## the `Origin` arm -/
+
+/-- Reading from `Point::Origin` yields the whole chain when its first block is the genesis block,
+    fails with `OriginMissing` when it is another block, and yields nothing for an empty database. -/
+theorem from_origin (isGenesis : Block H → Bool) (all : List (Chunk H)) (db : List (List (Block H))) (h : Intact all db) :
+    readBlocksFromOrigin isGenesis all =
+      (match db.flatten with
+       | [] => .ok []
+       | b :: rest => if isGenesis b then .ok ((b :: rest).map Item.blk) else .err .originMissing) := by
+  unfold readBlocksFromOrigin
+  rw [(read_all all db h).1]
+  cases db.flatten with
+  | nil => rfl
+  | cons b rest => simp only [List.map_cons]
+
 /-! ## the fuzzy clause at full strength, and where the code departs from it -/
 
 /-- the fuzzy clause as the property states it: for *every* slot -/
